@@ -167,6 +167,19 @@ struct Acc {
     outcomes: BTreeSet<u64>,
 }
 
+impl Acc {
+    fn flush(self, ctx: &Ctx) {
+        ctx.add_states(self.states);
+        ctx.add_transitions(self.transitions);
+        ctx.add_evaluations(self.evaluations);
+        ctx.add_nontrivial(self.nontrivial);
+        ctx.stat("queries_expected_proper_nonempty_subset_of_internal_calls", self.proper);
+        for o in &self.outcomes {
+            ctx.outcome(o);
+        }
+    }
+}
+
 fn case_json(calls: &[Vec<Tgt>], s: usize, t: usize) -> serde_json::Value {
     serde_json::to_value(Case { calls: calls.to_vec(), source: s, target: t }).unwrap()
 }
@@ -330,14 +343,7 @@ fn explore(ctx: &Ctx, n: usize, sorted_only: bool) -> u64 {
             ctx.sample(|| json!({"calls": calls, "pairs": "all ordered (source,target)"}));
             run_graph(ctx, acc, &calls, None);
         },
-        |acc| {
-            ctx.add_states(acc.states);
-            ctx.add_transitions(acc.transitions);
-            ctx.add_evaluations(acc.evaluations);
-            ctx.add_nontrivial(acc.nontrivial);
-            ctx.stat("queries_expected_proper_nonempty_subset_of_internal_calls", acc.proper);
-            ctx.outcome_set_merge(&acc.outcomes);
-        },
+        |acc| acc.flush(ctx),
     );
     ctx.stat(&format!("graphs_n{n}{}", if sorted_only { "_unordered_call_pairs" } else { "" }), total);
     total
@@ -354,8 +360,7 @@ fn main() {
         }
         let mut acc = Acc::default();
         run_graph(&ctx, &mut acc, &case.calls, Some((case.source, case.target)));
-        ctx.add_states(acc.states);
-        ctx.add_transitions(acc.transitions);
+        acc.flush(&ctx);
         ctx.finish("replay of one case", false);
     }
     let ctx = &ctx;
